@@ -50,12 +50,14 @@ func retError(kind int) error {
 
 // One step of a MarshalJSONTo / MarshalToFunc script.
 const (
-	opTok      = iota // WriteToken(tok(Arg))
-	opVal             // WriteValue(Raw)
-	opNested          // json.MarshalEncode(enc, nestedValue(Arg), nestedOpts(Arg2)...)
-	opEscape          // close the ENCLOSING container, reopen one of the same kind, refill it so that (depth,length) match
-	opOneValue        // write exactly one well-formed value of shape Arg (possibly a nested container)
-	opName            // write a fresh, unique string (useful in name position)
+	opTok          = iota // WriteToken(tok(Arg))
+	opVal                 // WriteValue(Raw)
+	opNested              // json.MarshalEncode(enc, nestedValue(Arg), nestedOpts(Arg2)...)
+	opEscape              // close the ENCLOSING container, reopen one of the same kind, refill it so that (depth,length) match
+	opOneValue            // write exactly one well-formed value of shape Arg (possibly a nested container)
+	opName                // write a fresh, unique string (useful in name position)
+	opDeepEscape          // close Arg ENCLOSING containers (whatever their kinds), reopen the same kinds and refill them
+	opNestedEscape        // open an array, marshal an int through a MarshalToFunc whose script is opDeepEscape(Arg), close the array
 )
 
 type Op struct {
@@ -116,6 +118,10 @@ func (b *Beh) desc() string {
 			fmt.Fprintf(&sb, "nested:%d/%d", o.Arg, o.Arg2)
 		case opEscape:
 			sb.WriteString("escape")
+		case opDeepEscape:
+			fmt.Fprintf(&sb, "deep-escape:%d", o.Arg)
+		case opNestedEscape:
+			fmt.Fprintf(&sb, "nested-escape:%d", o.Arg)
 		case opOneValue:
 			fmt.Fprintf(&sb, "one:%d", o.Arg)
 		case opName:
@@ -267,6 +273,18 @@ func (b *Beh) run(enc *jsontext.Encoder) error {
 			err = writeOneValue(enc, o.Arg, tr)
 		case opEscape:
 			err = escapeContainer(enc, tr, note)
+		case opDeepEscape:
+			err = deepEscape(enc, o.Arg, tr, note)
+		case opNestedEscape:
+			// the inner function runs one level below a container that THIS script opened: it may end neither that
+			// array nor anything around it
+			inner := &Beh{ID: -4, Script: []Op{{Kind: opDeepEscape, Arg: o.Arg}}, Stop: b.Stop, tr: tr}
+			e1 := enc.WriteToken(jsontext.BeginArray)
+			note(e1)
+			e2 := json.MarshalEncode(enc, 7, json.WithMarshalers(json.MarshalToFunc(func(e *jsontext.Encoder, _ int) error { return inner.run(e) })))
+			note(e2)
+			e3 := enc.WriteToken(jsontext.EndArray)
+			err = errors.Join(e1, e2, e3)
 		}
 		if note(err) {
 			return err
@@ -341,6 +359,61 @@ func escapeContainer(enc *jsontext.Encoder, tr *Trace, note func(error) bool) er
 			} else {
 				w(jsontext.Int(i))
 			}
+		}
+	}
+	return errors.Join(errs...)
+}
+
+// deepEscape generalises escapeContainer to `levels` enclosing containers of any kinds: `]` `}` … then the same
+// kinds reopened and refilled so that every reopened level shows the length it had (the innermost one more).
+func deepEscape(enc *jsontext.Encoder, levels int, tr *Trace, note func(error) bool) error {
+	d := enc.StackDepth()
+	levels = min(levels, d)
+	if levels <= 0 {
+		return enc.WriteToken(jsontext.Null)
+	}
+	type lvl struct {
+		kind jsontext.Kind
+		n    int64
+	}
+	var ls []lvl // ls[0] is the innermost
+	for i := 0; i < levels; i++ {
+		k, n := enc.StackIndex(d - i)
+		ls = append(ls, lvl{k, n})
+	}
+	var errs []error
+	w := func(t jsontext.Token) { e := enc.WriteToken(t); note(e); errs = append(errs, e) }
+	fill := func(kind jsontext.Kind, want int64) {
+		for i := int64(0); i < want; i++ {
+			if kind == '{' && i%2 == 0 {
+				tr.Uniq++
+				w(jsontext.String(fmt.Sprintf("d%d", tr.Uniq)))
+			} else {
+				w(jsontext.Int(i))
+			}
+		}
+	}
+	for i, l := range ls {
+		if l.kind == '{' {
+			if i == 0 && l.n%2 == 1 {
+				w(jsontext.Null) // finish the pending member
+			}
+			w(jsontext.EndObject)
+		} else {
+			w(jsontext.EndArray)
+		}
+	}
+	for i := levels - 1; i >= 0; i-- {
+		l := ls[i]
+		if l.kind == '{' {
+			w(jsontext.BeginObject)
+		} else {
+			w(jsontext.BeginArray)
+		}
+		if i == 0 {
+			fill(l.kind, l.n+1)
+		} else {
+			fill(l.kind, l.n-1) // the child about to be reopened is the l.n-th token
 		}
 	}
 	return errors.Join(errs...)
